@@ -151,3 +151,61 @@ package store
 //@   ensures DInv(s) && s.count == old(s.count) + bin.count
 //@   ensures view: forall k int :: DView(s, k) == old(DView(s, k)) + (k == bin.index ? bin.count : 0.0)
 //@   modifies s, arr(s.bins)
+
+// Cumulative weight up to and including index k.
+//@ fun DCum(s *DenseStore, k int) real := ASum(contents(s.bins), 0, max(0, min(len(s.bins), k - s.offset + 1)))
+
+// KeyAtRank: the first index whose cumulative weight exceeds the rank (negative ranks count as 0);
+// when no index does, the maximum index.
+//@ func DenseStore.KeyAtRank
+//@   serves C04 C01 C11
+//@   requires DInv(s)
+//@   ensures found: max(rank, 0.0) < s.count ==> DCum(s, result) > max(rank, 0.0) && DCum(s, result - 1) <= max(rank, 0.0)
+//@   ensures positive: max(rank, 0.0) < s.count ==> DView(s, result) > 0.0 && s.minIndex <= result && result <= s.maxIndex
+//@   ensures clamp: max(rank, 0.0) >= s.count ==> result == s.maxIndex
+//@   loop 1 invariant rank == max(old(rank), 0.0) && n == ASum(contents(s.bins), 0, $i1) && n <= rank
+//@   hint ASumStep(contents(s.bins), 0, $i1), ASumStep(contents(s.bins), 0, $i1 + 1), ASumMono(contents(s.bins), 0, $i1, len(s.bins)), ASumMono(contents(s.bins), 0, $i1 + 1, len(s.bins)), ASumEmpty(contents(s.bins), 0, 0)
+
+//@ func DenseStore.Copy
+//@   serves C04 C14
+//@   requires DInv(s)
+//@   ensures result != nil && fresh(result) && is(result, *DenseStore) && fresh(arr(as(result, *DenseStore).bins))
+//@   ensures DInv(as(result, *DenseStore)) && as(result, *DenseStore).count == s.count && as(result, *DenseStore).minIndex == s.minIndex && as(result, *DenseStore).maxIndex == s.maxIndex
+//@   ensures view: forall k int :: DView(as(result, *DenseStore), k) == DView(s, k)
+//@   hint ASumShift(contents(s.bins), contents(bins), 0, len(s.bins), 0)
+
+// Reweight: every bin and the count are multiplied by w (refused, with no change, for w <= 0).
+//@ func DenseStore.Reweight
+//@   serves C04 C16 C13
+//@   requires DInv(s)
+//@   ensures refuse: w <= 0.0 ==> result != nil && s.count == old(s.count) && (forall k int :: DView(s, k) == old(DView(s, k)))
+//@   ensures ok: w > 0.0 ==> result == nil && s.count == w * old(s.count) && s.minIndex == old(s.minIndex) && s.maxIndex == old(s.maxIndex)
+//@   ensures view: w > 0.0 ==> (forall k int :: DView(s, k) == w * old(DView(s, k)))
+//@   ensures DInv(s)
+//@   modifies s.count, arr(s.bins)
+//@   loop 1 invariant s.minIndex <= idx && (s.minIndex <= s.maxIndex ==> idx <= s.maxIndex + 1) && w > 0.0 && s.count == w * old(s.count)
+//@   loop 1 invariant s.minIndex == old(s.minIndex) && s.maxIndex == old(s.maxIndex) && s.offset == old(s.offset) && s.bins == old(s.bins)
+//@   loop 1 invariant forall j int :: 0 <= j && j < len(s.bins) ==> s.bins[j] == ((s.minIndex - s.offset <= j && j < idx - s.offset) ? w * old(s.bins[j]) : old(s.bins[j]))
+//@   hint ASumScale(old(contents(s.bins)), contents(s.bins), 0, len(s.bins), w)
+
+// ForEach: calls f exactly once for every index of positive weight, with that weight, until f asks to stop.
+//@ func DenseStore.ForEach
+//@   serves C04 C12 C14
+//@   requires DInv(s)
+//@   ghost visited set := emptyset()
+//@   ghost stopped bool := false
+//@   callback f params index, count
+//@   callback f results stop
+//@   callback f requires !stopped && !visited[index] && count == DView(s, index) && count > 0.0
+//@   callback f preserves footprint(s)
+//@   callback f ghost visited := update(visited, index, true)
+//@   callback f ghost stopped := stop
+//@   ensures complete: stopped || (forall k int :: DView(s, k) > 0.0 ==> visited[k])
+//@   ensures sound: forall k int :: visited[k] ==> DView(s, k) > 0.0
+//@   ensures DInv(s) && (forall k int :: DView(s, k) == old(DView(s, k)))
+//@   modifies everything()
+//@   loop 1 invariant DInv(s) && !stopped && s.minIndex <= idx && (s.minIndex <= s.maxIndex ==> idx <= s.maxIndex + 1)
+//@   loop 1 invariant forall k int :: visited[k] <==> (s.minIndex <= k && k < idx && DView(s, k) > 0.0)
+//@   loop 1 invariant forall k int :: DView(s, k) == old(DView(s, k))
+
+//@ footprint DenseStore(s) := s, arr(s.bins)
